@@ -13,7 +13,8 @@ EXPLANATION = (
     'or a helper with that property) - a single pass copies direct dependencies only; (C13.2) terms that denote ranges (":") '
     'are not looked up in the cells map and the ranges of the extracted model are populated; (C13.3) every object stored '
     'into the extracted model derives from the original through copy.deepcopy, and extract() stores nothing into the '
-    'original model; (C13.4) focus entries are taken from cells and from defined names, and the extracted model is compiled.')
+    'original model; (C13.5) set_cell_value/get_cell_value write and read through the cells map (names and cells are '
+    'separate copies in the extracted model), so the same input change has the same effect on both models; (C13.4) focus entries are taken from cells and from defined names, and the extracted model is compiled.')
 NOT_DECIDED = 'value equality after arbitrary input changes'
 TRUSTED = ['copy.deepcopy yields an independent object graph']
 
@@ -177,9 +178,24 @@ def rule_4(ctx):
     ctx.floor(4, 'focus handling facts')
 
 
+def rule_5(ctx):
+    """After extraction the XLCell held by defined_names and the one in the cells map are *separate* deep copies, so input
+    changes applied to both models agree only if set/get go through the cells map (shared with C04.4)."""
+    mm, fn, orig, ext = _extract(ctx)
+    copies = [a for a in walk_local(fn) if isinstance(a, ast.Assign) and isinstance(a.value, ast.Call)
+              and ctx.res.resolve(a.value.func, mm) == 'ext:copy.deepcopy']
+    into_names = [a for a in copies if any(f'{ext}.defined_names' in ast.unparse(t) for t in a.targets)]
+    into_cells = [a for a in copies if any(f'{ext}.cells' in ast.unparse(t) for t in a.targets)]
+    ctx.note(f'extract() deep-copies {len(into_names)} name object(s) and {len(into_cells)} cell object(s) separately: '
+             'name objects and cell objects of the extracted model are not aliases')
+    from . import c04
+    c04.rule_4(ctx)
+
+
 RULES = [
     ('C13.1', 'dependency closure of extract', rule_1),
     ('C13.2', 'range terms are not looked up as cells; ranges populated', rule_2),
     ('C13.3', 'no aliasing with the original, original unchanged', rule_3),
     ('C13.4', 'focus handling and compilation', rule_4),
+    ('C13.5', 'input changes reach the cells map in both models (shared with C04.4)', rule_5),
 ]
